@@ -210,7 +210,7 @@ class Uni:
                     self.bad("C11", "a second DWR is sent while the first is unanswered")
                 if not (ep.ce == "ok" and not ep.dpr_rx and not ep.dpr_tx):
                     self.bad("C11", "DWR sent on a connection that is not ready")
-                if WORLD.now - ep.last_rx <= self.idle_timeout(ep):
+                if WORLD.now - ep.last_rx < self.idle_timeout(ep):          # (equality: either reading of 'longer than' is accepted)
                     self.bad("C11", "DWR sent although traffic arrived %d s ago (idle timeout %d)" % (WORLD.now - ep.last_rx, self.idle_timeout(ep)))
                 ep.dwr_out.append((h.hop_by_hop_identifier, h.end_to_end_identifier, WORLD.now))
             elif h.command_code == 282:
@@ -703,7 +703,7 @@ class Uni:
                         WORLD.now - e.last_rx, it, len(e.dwr_out)))
                 if was_ready and dwr_before and WORLD.now - dwr_before[0][2] > dt_ and e.open:
                     self.bad("C11", "no DWA for %d s (timeout %d) but the connection is still open" % (WORLD.now - dwr_before[0][2], dt_))
-                if was_ready and dwr_before and WORLD.now - dwr_before[0][2] <= dt_ and not e.open:
+                if was_ready and dwr_before and WORLD.now - dwr_before[0][2] < dt_ and not e.open:
                     self.bad("C11", "connection closed %d s after the DWR (DWA timeout %d)" % (WORLD.now - dwr_before[0][2], dt_))
                 if not e.open and was_open:
                     e.ended = True
@@ -782,9 +782,11 @@ class Uni:
                 continue
             auto_now = [e for e in self.eps if e.dir == "out" and e.dialled == peer and not getattr(e, "mine", False) and e.born == WORLD.now]
             t, after_dpr = self.loss[peer]
-            due = WORLD.now - t >= self.n.peers[peer].reconnect_wait and not after_dpr
+            wait = self.n.peers[peer].reconnect_wait
+            due = WORLD.now - t >= wait and not after_dpr
+            overdue = WORLD.now - t > wait and not after_dpr          # (at equality either reading of 'has elapsed' is accepted)
             had = [e for e in has if e.born < WORLD.now]
-            if due and not had and not auto_now and not getattr(self, "stopping", False):
+            if overdue and not had and not auto_now and not getattr(self, "stopping", False):
                 self.bad("C12", "persistent peer %s lost its connection %d s ago (reconnect wait %d) and is not dialled" % (peer, WORLD.now - t, self.n.peers[peer].reconnect_wait))
             if auto_now and (not due or had):
                 self.bad("C12", "peer %s dialled although %s" % (peer, "it has a connection" if had else ("its loss followed a DPR" if after_dpr else "the reconnect wait has not elapsed")))
